@@ -83,20 +83,23 @@ class _InMemoryConsumer(ConsumerT):
         return msg
 
     def __consume_delayed(self) -> Message | None:
-        if not self._queue.delayed:
-            return None
-
-        soonest = min(self._queue.delayed)
-
-        if len(self._queue.delayed[soonest]) == 1:
-            return self._queue.delayed.pop(soonest)[0]
-        return self._queue.delayed[soonest].pop(0)
+        for time_ in sorted(self._queue.delayed):
+            msgs = self._queue.delayed[time_]
+            for i, msg in enumerate(msgs):
+                if self.topics and msg.key.topic not in self.topics:  # topics don't match
+                    continue
+                msgs.pop(i)
+                if not msgs:
+                    self._queue.delayed.pop(time_)
+                return msg
+        return None
 
     def __consume_dead(self) -> Message | None:
-        if not self._queue.dead:
-            return None
-
-        return self._queue.dead.pop(0)
+        for i, msg in enumerate(self._queue.dead):
+            if self.topics and msg.key.topic not in self.topics:  # topics don't match
+                continue
+            return self._queue.dead.pop(i)
+        return None
 
     async def consume(self) -> tuple[RoutingKeyT, str, ParametersT]:
         await asyncio.sleep(0)
